@@ -180,7 +180,9 @@ def run_job(job) -> Dict[str, Any]:
         offence = [t for t in sent if ('plays' in t.lower() or 'bids' in t.lower() or 'passes' in t.lower()
                                        or 'doubles' in t.lower() or 'frobnicates' in t.lower())
                    and t not in legit]
-        e['offence'] = offence[-1] if offence else ''
+        # only for offences whose text cannot also be a legitimate message of
+        # the session (garbage, a card neither the seat nor its partner holds)
+        e['offence'] = offence[-1] if offence and fault['kind'] in ('garbage', 'not-held') else ''
         e['s2c_all'] = [[t for (_, t) in c['s2c']] for c in res['conns'] if c['seat'] != fault['seat']]
     if res.get('second') is not None:
         e2 = session_event(tid + 'B', cfg['second'], res['second'], kind, completed)
